@@ -15,17 +15,24 @@ assert prop, pid
 text = "\n".join(f"{k}: {v}" for k, v in prop.items())
 d = f'/tmp/seed{rnd}-{pid}' if rnd != "1" else f'/tmp/seed-{pid}'
 avoid = {
- "C01": "LcCobTrait::inv", "C02": "contains_base_pt", "C03": "diag_normalize_step in snf.rs", "C04": "Link::crossing_signs",
- "C05": "part_eval", "C06": "BuildElem::eliminate", "C07": "the collection of torsion orders in the homology calculator",
- "C08": "ChainReducer::update_vecs", "C09": "diag_normalize_step", "C10": "the size-reduction loop of plain LLL",
- "C11": "RowWorker::init", "C12": "group_cols / UnionFind", "C13": "SpMat::extend_cols", "C14": "Ratio::reduce",
- "C15": "div_round", "C16": "Lc::map_coeffs / into_map_coeffs", "C17": "BitSeq::weight", "C18": "Link::crossing_signs",
- "C19": "SymTngBuilder::build_from_half", "C20": "the handling of --mirror",
+ "C01": ["LcCobTrait::inv", "TngComplex::connect_edges"], "C02": ["contains_base_pt", "Link::crossing_signs"],
+ "C03": ["diag_normalize_step in snf.rs", "LcCob::inv"], "C04": ["Link::crossing_signs", "jones_polynomial"],
+ "C05": ["part_eval", "LcCob::inv"], "C06": ["BuildElem::eliminate", "LcCob::inv"],
+ "C07": ["the collection of torsion orders in the homology calculator", "diag_normalize_step in snf.rs"],
+ "C08": ["ChainReducer::update_vecs", "RowWorker::init in pivot.rs"], "C09": ["diag_normalize_step", "SnfCalc::eliminate_step"],
+ "C10": ["the size-reduction loop of plain LLL", "normalizing_unit of the Eisenstein integers"],
+ "C11": ["RowWorker::init", "RowWorker::traverse"], "C12": ["group_cols / UnionFind", "_solve_triangular"],
+ "C13": ["SpMat::extend_cols", "Trans::sub"], "C14": ["Ratio::reduce", "negation of FF<p>"],
+ "C15": ["div_round", "divides for QuadInt"], "C16": ["Lc::map_coeffs / into_map_coeffs", "MultiDeg::cmp_lex"],
+ "C17": ["BitSeq::weight", "BitSeq::remove"], "C18": ["Link::crossing_signs", "Braid::closure / Braid::reduce"],
+ "C19": ["SymTngBuilder::build_from_half", "SymTngBuilder::off_axis_crossings"],
+ "C20": ["the handling of --mirror", "the (coefficient type, variables) dispatch table"],
 }
 threads = {"C01", "C08", "C11", "C12"}
 extra = ""
 if rnd != "1":
-    extra += f"\nAn earlier, separate exercise already produced a change in {avoid[pid]}; choose a DIFFERENT function (preferably a different file) so that the two changes are independent.\n"
+    prev = avoid[pid][: int(rnd) - 1]
+    extra += f"\nEarlier, separate exercises already produced changes in: {'; '.join(prev)}. Choose a DIFFERENT function (preferably a different file) so that the changes are independent.\n"
     if pid in threads:
         extra += "For this property, strongly prefer a defect that only shows under a particular interleaving of the rayon worker threads (a dropped re-check after re-acquiring a lock, a lock released too early, state hoisted from task-local to shared, a stale snapshot, a thread-local scratch buffer that is not reset, ...), i.e. one that single-threaded execution of the same input never shows. If after a serious attempt no such change passes the existing tests, fall back to a sequential one.\n"
 print(f"""You are working in a scratch git worktree of the Rust workspace taketo1024/yui (exact algebra + Khovanov homology) at {d} . It already exists and is yours alone. Work ONLY inside {d}: do not read or write /repo, /verif or any other worktree under /tmp (they are off limits), do not use the network (there is none; cargo needs --offline), do not commit.
